@@ -293,6 +293,12 @@ def evalAssign (facts : List String) (r : Regs) (args : List String) : Option Va
   | ["add_salted", e, p, o, hx] => do
     let e ← r.env e; let p ← r.env p; let o ← r.env o; let s ← optHex hx
     pure (.ofRes (addAssertionSalted H e p o s))
+  | ["add_env_unsalted", e, a] => do
+    let e ← r.env e; let a ← r.env a
+    pure (.ofRes (addAssertionEnvelope H e a))
+  | ["add_many_unsalted", e, xs] => do
+    let e ← r.env e; let xs ← envs r xs
+    pure (.ofRes (addAll H e xs))
   | ["add_type", e, t] => do
     let e ← r.env e; let t ← r.env t
     pure (.ofRes (addType H e t))
